@@ -39,7 +39,7 @@ struct LenpHarness : Harness {
                 "frame_split_inside_prefix", "destination_one_octet_too_small", "over_maximum_refused", "sink_error_mid_frame", "buffer_n_less_than_rest",
                 "n_beyond_unread_refused", "fragmented_decode", "append_behind_existing_content", "multi_frame_stream_fragmented"};
     }
-    uint64_t runs(const std::string &, const Tier &t) const override { return t.thorough() ? 12000000 : 1200000; }
+    uint64_t runs(const std::string &, const Tier &t) const override { return t.thorough() ? 10000000 : 1200000; }
 
     Json describe(const std::string &) const override {
         Json d = Json::obj();
